@@ -125,6 +125,21 @@ def _tailify(stmts: List[ast.stmt], ret: str) -> List[ast.stmt]:
     return out
 
 
+def _walk_own(stmts, loops: bool = True):
+    """nodes of a statement list without descending into nested function / class definitions (and, with loops=False,
+    without descending into nested loops)"""
+    todo = list(stmts)
+    while todo:
+        n = todo.pop()
+        yield n
+        for c in ast.iter_child_nodes(n):
+            if isinstance(c, (ast.FunctionDef, ast.AsyncFunctionDef, ast.ClassDef, ast.Lambda)):
+                continue
+            if not loops and isinstance(c, (ast.For, ast.While, ast.AsyncFor)):
+                continue
+            todo.append(c)
+
+
 def _has_own_break(loop) -> bool:
     def walk(sts):
         for x in sts:
@@ -438,6 +453,28 @@ class Normalizer:
                     nb = _SubstName({st.target.id: c}).visit(copy.deepcopy(b))
                     out.extend(self._stmt(nb, cls, depth))
             return out
+        if isinstance(st, ast.For) and isinstance(st.iter, ast.Call):
+            g = self._inline_gen_for(st, cls, depth)
+            if g is not None:
+                return g
+        # X.extend(gen()) / X.update(gen()) as statements
+        if isinstance(st, ast.Expr) and isinstance(st.value, ast.Call) and isinstance(st.value.func, ast.Attribute) \
+                and st.value.func.attr in ("extend", "update") and len(st.value.args) == 1 and not st.value.keywords \
+                and self._gen_target(st.value.args[0], cls) is not None:
+            recv = st.value.func.value
+            if st.value.func.attr == "extend":
+                it = self._fresh("it")
+                leaf = ast.Expr(value=ast.Call(func=ast.Attribute(value=copy.deepcopy(recv), attr="append", ctx=ast.Load()),
+                                               args=[ast.Name(id=it, ctx=ast.Load())], keywords=[]))
+                tgt = ast.Name(id=it, ctx=ast.Store())
+            else:
+                kk, vv = self._fresh("k"), self._fresh("v")
+                tgt = ast.Tuple(elts=[ast.Name(id=kk, ctx=ast.Store()), ast.Name(id=vv, ctx=ast.Store())], ctx=ast.Store())
+                leaf = ast.Assign(targets=[ast.Subscript(value=copy.deepcopy(recv), slice=ast.Name(id=kk, ctx=ast.Load()), ctx=ast.Store())],
+                                  value=ast.Name(id=vv, ctx=ast.Load()), lineno=st.lineno)
+            loop = ast.copy_location(ast.For(target=tgt, iter=st.value.args[0], body=[leaf], orelse=[], type_comment=None), st)
+            ast.fix_missing_locations(loop)
+            return self._stmt(loop, cls, depth)
         if isinstance(st, (ast.For, ast.AsyncFor)):
             if self.lower_ifexp and isinstance(st.iter, ast.IfExp):
                 tmp = self._fresh("it")
@@ -524,6 +561,146 @@ class Normalizer:
             t.value = self._hoist(t.value, pre, cls, depth, st)
         return t
 
+    # ------------------------------------------------------------------ generators
+    def _gen_target(self, call, cls):
+        """(qual, fn, callee_cls, bind_self) if `call` resolves to a private generator function that may be dissolved"""
+        if not isinstance(call, ast.Call):
+            return None
+        r = self.resolve(call, cls)
+        if r is None:
+            return None
+        qual, fn, callee_cls, bind_self = r
+        if fn.name in self.keep or qual in self.keep or qual in self._stack:
+            return None
+        body = A.strip_docstring(fn.body)
+        own = [n for n in _walk_own(body) if isinstance(n, (ast.Yield, ast.YieldFrom))]
+        if not own or fn.decorator_list and any((A.dotted(d) or "").split(".")[-1] == "contextmanager" for d in fn.decorator_list):
+            return None
+        return r
+
+    def _inline_gen_for(self, st: ast.For, cls, depth) -> Optional[List[ast.stmt]]:
+        """`for T in self._gen(args): BODY` with _gen a generator helper: the helper's body with every `yield E` replaced by
+        `T = E; BODY` (lazy consumption interleaves exactly like that).  BODY must not break/continue out of the loop."""
+        if depth <= 0 or st.orelse:
+            return None
+        r = self._gen_target(st.iter, cls)
+        if r is None:
+            return None
+        qual, fn, callee_cls, bind_self = r
+        if any(isinstance(n, (ast.Break, ast.Continue)) for n in _walk_own(st.body, loops=False)):
+            return None
+        body = A.strip_docstring(copy.deepcopy(fn.body))
+        own = [n for n in _walk_own(body)]
+        ys = [n for n in own if isinstance(n, (ast.Yield, ast.YieldFrom))]
+        n_body = sum(1 for n in ast.walk(ast.Module(body=st.body, type_ignores=[])) if isinstance(n, ast.stmt))
+        if len(ys) > 24 or n_body > 25 or len(ys) * n_body > 200:
+            return None
+        # only statement-level yields; a `return` only as the last statement
+        stmt_yields = {id(n.value) for n in own if isinstance(n, ast.Expr) and isinstance(n.value, (ast.Yield, ast.YieldFrom))}
+        if any(id(y) not in stmt_yields for y in ys):
+            return None
+        rets = [n for n in own if isinstance(n, ast.Return)]
+        if rets and not (len(rets) == 1 and body and body[-1] is rets[0] and rets[0].value is None):
+            return None
+        if rets:
+            body = body[:-1]
+        try:
+            self.k += 1
+            k = self.k
+            binds = self._bind(st.iter, fn, bind_self, k)
+        except _CannotInline as e:
+            self.opaque.append(f"{qual}: {e}")
+            return None
+        selfname = fn.args.args[0].arg if (fn.args.args and bind_self is not None) else None
+        locals_ = _stored_names(ast.Module(body=body, type_ignores=[])) | {a.arg for a in fn.args.args + fn.args.kwonlyargs}
+        if fn.args.vararg:
+            locals_.add(fn.args.vararg.arg)
+        mapping = {n: f"{n}__{k}" for n in locals_}
+        if selfname and bind_self is True:
+            mapping.pop(selfname, None)
+        rebound = _stored_names(ast.Module(body=body, type_ignores=[]))
+        direct = {}
+        for pname, val in binds:
+            if isinstance(val, ast.Name) and pname not in rebound and pname in mapping and not (selfname and pname == selfname and bind_self is True):
+                direct[pname] = val.id
+                mapping[pname] = val.id
+        binds = [(pn, v) for pn, v in binds if pn not in direct]
+        ren = _Renamer(mapping)
+        body = [ren.visit(x) for x in body]
+        loop_body = st.body
+        target = st.target
+
+        class _Y(ast.NodeTransformer):
+            def visit_Expr(self_, node):
+                v = node.value
+                if isinstance(v, ast.Yield):
+                    val = v.value if v.value is not None else ast.Constant(value=None)
+                    a = ast.copy_location(ast.Assign(targets=[copy.deepcopy(target)], value=val, lineno=node.lineno), node)
+                    return [a] + copy.deepcopy(loop_body)
+                if isinstance(v, ast.YieldFrom):
+                    f = ast.For(target=copy.deepcopy(target), iter=v.value, body=copy.deepcopy(loop_body), orelse=[], type_comment=None)
+                    return [ast.copy_location(f, node)]
+                return node
+
+            def visit_FunctionDef(self_, node):
+                return node
+            visit_AsyncFunctionDef = visit_Lambda = visit_ClassDef = visit_FunctionDef
+        tr = _Y()
+        new_body = []
+        for x in body:
+            r_ = tr.visit(x)
+            new_body.extend(r_ if isinstance(r_, list) else [r_])
+        marker = ast.Expr(value=ast.Call(func=ast.Name(id=MARKER, ctx=ast.Load()), args=[ast.Constant(value=qual)], keywords=[]))
+        out: List[ast.stmt] = [ast.copy_location(marker, st)]
+        for pname, val in binds:
+            tgt_ = mapping.get(pname, pname)
+            if tgt_ == pname and isinstance(val, ast.Name) and val.id == pname:
+                continue
+            out.append(ast.copy_location(ast.Assign(targets=[ast.Name(id=tgt_, ctx=ast.Store())], value=val, lineno=st.lineno), st))
+        for x in out + new_body:
+            ast.fix_missing_locations(x)
+        self._stack.append(qual)
+        try:
+            out.extend(self._block(new_body, cls, depth - 1))
+        finally:
+            self._stack.pop()
+        self.inlined.append(qual)
+        return out
+
+    CONSUMERS = {"list": ("list", "append"), "tuple": ("list", "append"), "set": ("set", "add"), "dict": ("dict", None), "sorted": ("list", "append")}
+
+    def _lower_gen_consumer(self, e: ast.Call, pre, cls, depth, st):
+        """list(self._gen(..)) / tuple / set / dict / sorted of a generator helper: an explicit accumulation loop"""
+        nm = e.func.id if isinstance(e.func, ast.Name) else None
+        if nm not in self.CONSUMERS or len(e.args) != 1 or e.keywords and nm != "sorted":
+            return None
+        if self._gen_target(e.args[0], cls) is None:
+            return None
+        kind, add = self.CONSUMERS[nm]
+        tmp = self._fresh("acc")
+        init = {"list": ast.List(elts=[], ctx=ast.Load()), "set": ast.Call(func=ast.Name(id="set", ctx=ast.Load()), args=[], keywords=[]),
+                "dict": ast.Dict(keys=[], values=[])}[kind]
+        pre.append(ast.copy_location(ast.Assign(targets=[ast.Name(id=tmp, ctx=ast.Store())], value=init, lineno=st.lineno), st))
+        if kind == "dict":
+            kk, vv = self._fresh("k"), self._fresh("v")
+            tgt = ast.Tuple(elts=[ast.Name(id=kk, ctx=ast.Store()), ast.Name(id=vv, ctx=ast.Store())], ctx=ast.Store())
+            leaf = ast.Assign(targets=[ast.Subscript(value=ast.Name(id=tmp, ctx=ast.Load()), slice=ast.Name(id=kk, ctx=ast.Load()), ctx=ast.Store())],
+                              value=ast.Name(id=vv, ctx=ast.Load()), lineno=st.lineno)
+        else:
+            it = self._fresh("it")
+            tgt = ast.Name(id=it, ctx=ast.Store())
+            leaf = ast.Expr(value=ast.Call(func=ast.Attribute(value=ast.Name(id=tmp, ctx=ast.Load()), attr=add, ctx=ast.Load()),
+                                           args=[ast.Name(id=it, ctx=ast.Load())], keywords=[]))
+        loop = ast.copy_location(ast.For(target=tgt, iter=e.args[0], body=[leaf], orelse=[], type_comment=None), st)
+        ast.fix_missing_locations(loop)
+        pre.extend(self._stmt(loop, cls, depth))
+        res = ast.Name(id=tmp, ctx=ast.Load())
+        if nm == "tuple":
+            res = ast.Call(func=ast.Name(id="tuple", ctx=ast.Load()), args=[res], keywords=[])
+        elif nm == "sorted":
+            res = ast.Call(func=ast.Name(id="sorted", ctx=ast.Load()), args=[res], keywords=e.keywords)
+        return ast.copy_location(res, e)
+
     # ------------------------------------------------------------------ expression hoisting
     def _hoist(self, e, pre, cls, depth, st):
         """Inline helper calls found in unconditionally evaluated positions of expression e (innermost first)."""
@@ -551,6 +728,9 @@ class Normalizer:
                     elif isinstance(x, ast.keyword):
                         x.value = self._hoist(x.value, pre, cls, depth, st)
         if isinstance(e, ast.Call):
+            low = self._lower_gen_consumer(e, pre, cls, depth, st)
+            if low is not None:
+                return low
             blk = self._inline(e, cls, depth, st)
             if blk is not None:
                 stmts, ret = blk
@@ -611,6 +791,18 @@ class Normalizer:
         binds = [(pn, v) for pn, v in binds if pn not in direct]
         ren = _Renamer(mapping)
         body = [ren.visit(s) for s in body]
+        # a parameter bound to a call of a generator helper and consumed once is that call (its body runs lazily, where it is consumed)
+        gens = {}
+        for pn, v in binds:
+            tgt = mapping.get(pn, pn)
+            if pn not in rebound and isinstance(v, ast.Call) and self._gen_target(v, cls) is not None:
+                uses = [n for x in body for n in ast.walk(x) if isinstance(n, ast.Name) and n.id == tgt and isinstance(n.ctx, ast.Load)]
+                if len(uses) == 1:
+                    gens[tgt] = v
+        if gens:
+            sub = _SubstName(gens)
+            body = [sub.visit(x) for x in body]
+            binds = [(pn, v) for pn, v in binds if mapping.get(pn, pn) not in gens]
         # a parameter bound to a constant that the helper never rebinds is that constant (mode flags: `undo=False`)
         consts = {mapping.get(pn, pn): v for pn, v in binds if isinstance(v, ast.Constant) and pn not in rebound}
         if consts:
